@@ -468,7 +468,7 @@ Proof.
   - simpl. apply IH.
   - simpl msgs. simpl fold_left. unfold uc_step_burst at 1. cbn [uclosed ucount uparser].
     rewrite IH. unfold add_message. cbn [concat length]. rewrite fold_left_app. f_equal; [lia|].
-    apply eq_true_iff_eq.
+    change (match nq with 0 => false | S m' => c =? m' end) with (S c =? nq). apply eq_true_iff_eq.
     rewrite !orb_true_iff, !andb_true_iff, Nat.eqb_eq, !Nat.ltb_lt, !Nat.leb_le. intuition lia.
 Qed.
 
